@@ -30,7 +30,9 @@ type qiIn struct {
 	owner *qiKey
 	op    types.OutPoint
 	decoy types.OutPoint // second UTXO with the same owner and denomination
-	denom uint8
+	// two more of those, differing from op in exactly one component of the outpoint
+	decoySameHash, decoySameIndex types.OutPoint
+	denom                         uint8
 }
 
 type qiSpend struct {
@@ -78,6 +80,25 @@ func mkQiTx(chainID *big.Int, ins types.TxIns, outs types.TxOuts, data []byte, s
 
 func qiDigest(tx *types.Transaction, chainID *big.Int, loc common.Location) common.Hash {
 	return types.NewSigner(chainID, loc).Hash(tx)
+}
+
+// canonQi is the harness' own structural rendering of a Qi transaction; whether two
+// transactions "differ" must not be decided with the encoder that is under test.
+func canonQi(tx *types.Transaction) string {
+	var b bytes.Buffer
+	fmt.Fprintf(&b, "chain=%x|", tx.ChainId().Bytes())
+	for _, in := range tx.TxIn() {
+		fmt.Fprintf(&b, "in(%x:%d,%x)", in.PreviousOutPoint.TxHash, in.PreviousOutPoint.Index, in.PubKey)
+	}
+	for _, o := range tx.TxOut() {
+		lock := new(big.Int)
+		if o.Lock != nil {
+			lock = o.Lock
+		}
+		fmt.Fprintf(&b, "out(%d,%x,%v)", o.Denomination, o.Address, lock)
+	}
+	fmt.Fprintf(&b, "|data=%x|sig=%x", tx.Data(), tx.GetSchnorrSignature().Serialize())
+	return b.String()
 }
 
 func wireBytes(tx *types.Transaction) []byte {
@@ -131,7 +152,9 @@ func genQiSpend(t *rapid.T) *qiSpend {
 			dmax = in.denom
 		}
 		in.op, in.decoy = s.uniqOutPoint(t, "op"), s.uniqOutPoint(t, "decoy")
-		for _, op := range []types.OutPoint{in.op, in.decoy} {
+		in.decoySameHash = types.OutPoint{TxHash: in.op.TxHash, Index: in.op.Index ^ (1 << rapid.IntRange(0, 15).Draw(t, "decoyIdxBit"))}
+		in.decoySameIndex = types.OutPoint{TxHash: s.uniqOutPoint(t, "decoy2").TxHash, Index: in.op.Index}
+		for _, op := range []types.OutPoint{in.op, in.decoy, in.decoySameHash, in.decoySameIndex} {
 			if err := s.env.addUTXO(op, in.denom, in.owner.addr[:]); err != nil {
 				t.Fatalf("HARNESS: CreateUTXO: %v", err)
 			}
@@ -254,6 +277,14 @@ func (s *qiSpend) mutants(t *rapid.T) []qiMutant {
 		ins := cpIns()
 		ins[i].PreviousOutPoint = s.ins[i].decoy
 		add("in", "swap-decoy", mkQiTx(s.chainID, ins, s.outs, s.data, s.sig), true, owners)
+
+		ins = cpIns()
+		ins[i].PreviousOutPoint = s.ins[i].decoySameHash
+		add("in", "swap-decoy-index", mkQiTx(s.chainID, ins, s.outs, s.data, s.sig), true, owners)
+
+		ins = cpIns()
+		ins[i].PreviousOutPoint = s.ins[i].decoySameIndex
+		add("in", "swap-decoy-hash", mkQiTx(s.chainID, ins, s.outs, s.data, s.sig), true, owners)
 
 		ins = cpIns()
 		ins[i].PreviousOutPoint.Index ^= 1 << rapid.IntRange(0, 15).Draw(t, "idxBit")
@@ -483,7 +514,7 @@ func TestC03_QiSpend(t *testing.T) {
 			t.Fatalf("HARNESS: valid %s/%s spend refused by pool validation: %v  %v", s.kind, multi, err, dump(nil, ""))
 		}
 		baseHash := s.tx.Hash()
-		baseWire := wireBytes(s.tx)
+		baseCanon := canonQi(s.tx)
 		stats.Case(part, fmt.Sprintf("valid/%s/%s", s.kind, multi), true, "valid", "valid_"+multi, "kind_"+s.kind)
 		if stats.WantSample(part) {
 			stats.Sample(part, dump(nil, "valid spend"))
@@ -504,7 +535,7 @@ func TestC03_QiSpend(t *testing.T) {
 		for i := range ms {
 			m := &ms[i]
 			name := m.field + "/" + m.kind
-			differs := m.sameObject || !bytes.Equal(wireBytes(m.tx), baseWire)
+			differs := m.sameObject || canonQi(m.tx) != baseCanon
 			labels := []string{"mutant", "field_" + m.field, multi}
 			if m.sigOnly {
 				labels = append(labels, "sig_only", "sig_only_"+multi)
